@@ -1,8 +1,11 @@
 package props
 
 import (
+	"bytes"
 	"encoding/json"
 	"fmt"
+	"net/http/httptest"
+	"net/url"
 	"os"
 	"sort"
 	"strings"
@@ -35,7 +38,7 @@ func (o c12Op) String() string {
 	switch o.kind {
 	case "parse-url":
 		return fmt.Sprintf("parse-url(%q)", o.raw)
-	case "unmarshal-document", "unmarshal-partial", "roundtrip-document":
+	case "unmarshal-document", "unmarshal-partial", "roundtrip-document", "new-request":
 		return fmt.Sprintf("%s(%s)", o.kind, o.payload)
 	case "new-set-get", "marshal", "marshal-softcol":
 		return fmt.Sprintf("%s(%s %s)", o.kind, o.typ, gen.ShowVals(o.vals))
@@ -44,7 +47,7 @@ func (o c12Op) String() string {
 	return fmt.Sprintf("%s(%q)", o.kind, o.typ)
 }
 
-var c12Kinds = []string{"parse-url", "unmarshal-document", "unmarshal-partial", "new-set-get", "new-direct", "marshal", "marshal-softcol", "roundtrip-document", "has-type", "get-type", "check", "rels"}
+var c12Kinds = []string{"new-request", "parse-url", "unmarshal-document", "unmarshal-partial", "new-set-get", "new-direct", "marshal", "marshal-softcol", "roundtrip-document", "has-type", "get-type", "check", "rels"}
 
 func drawOp(t *rapid.T, ss *gen.SchemaSpec) c12Op {
 	kind := rapid.SampledFrom(c12Kinds).Draw(t, "op")
@@ -65,7 +68,7 @@ func drawOp(t *rapid.T, ss *gen.SchemaSpec) c12Op {
 	switch kind {
 	case "parse-url":
 		op.raw = gen.URLRequest(t, ss, gen.URLOpts{Valid: rapid.Bool().Draw(t, "validurl")}).Render(t, "render")
-	case "unmarshal-document", "roundtrip-document":
+	case "unmarshal-document", "roundtrip-document", "new-request":
 		pc := gen.ResourcePayload(t, ts, gen.PayloadOpts{Canonical: true, AllFieldsOften: true})
 		op.payload = []byte(`{"data":` + pc.Text + `,"meta":{"k":1}}`)
 		op.resMeta = pc.ResMeta
@@ -103,6 +106,20 @@ func runOp(schema *jsonapi.Schema, ss *gen.SchemaSpec, op c12Op, held *[]c12Held
 		}
 
 		return "url " + u.String()
+	case "new-request":
+		// The whole request at once: a POST to the type's collection with
+		// the document as its body.
+		req, err := jsonapi.NewRequest(httptest.NewRequest("POST", "/"+url.PathEscape(op.typ), bytes.NewReader(op.payload)), schema)
+		if err != nil {
+			return "error"
+		}
+
+		res, _ := req.Doc.Data.(jsonapi.Resource)
+		if res == nil {
+			return "no data"
+		}
+
+		return req.URL.String() + " " + hold(res, "doc "+c12Digest(res))
 	case "unmarshal-document":
 		doc, err := jsonapi.UnmarshalDocument(op.payload, schema)
 		if err != nil {
